@@ -81,7 +81,8 @@ def warm_start(
             is_time = np.dtype(state.dtypes.get(var, float)).kind == "M"
             if is_time and "since" not in units:
                 # Written without units: seconds since the reference time
-                units = f.variables["time"].units
+                reference = f.variables["time"].units.split("since")[1]
+                units = "seconds since" + reference
             if "since" in units:
                 reftime = np.datetime64(units.split("since")[1].strip())
                 # Whole seconds (a float times a timedelta64 is truncated to
